@@ -312,6 +312,30 @@ class PhaseWorld(World):
         phase = kk / N
         bits = format(kk, f"0{m}b")
         opts = dict(opts)
+        pre = op.get("np_seed", 0) % 5
+        if pre in (0, 1):
+            # The caller holds the Unitary *object* (not just the operator / circuit it is made from), has used it on its own
+            # before - asked for the plain single step and gone on computing with the circuit it was handed, or asked for a
+            # step controlled by some other qubit - and then gives the very same object to the solver(s).
+            from tangelo.toolboxes.unitary_generator import CircuitUnitary, TrotterSuzukiUnitary
+            from tangelo.linq import Gate
+            try:
+                if "qubit_hamiltonian" in opts:
+                    U = TrotterSuzukiUnitary(opts.pop("qubit_hamiltonian"), **opts.pop("unitary_options"))
+                else:
+                    U = CircuitUnitary(opts["unitary"], **opts.pop("unitary_options"))
+                if pre == 0:
+                    plain = U.build_circuit(1)
+                    plain.add_gate(Gate("H", 0))
+                    plain.add_gate(Gate("X", 0))
+                else:
+                    U.build_circuit(1, control=ns + 1)
+                    U.build_circuit(2, control=ns)
+                opts["unitary"] = U
+                ctx.probe("C20.unitary_object_used_by_caller_before_solver")
+            except Exception as ex:
+                ctx.outcome(k, "refused-unexpectedly")
+                return [Violation("C20", "unexpected-refusal", f"{k}:{prob['kind']}:unitary-object", {"exception": repr(ex)[:300], "op": op})]
         opts["size_qpe_register"] = m
         opts["backend_options"] = {"target": "cirq", "n_shots": op["shots"]}
         self.sig.add((k, prob["kind"], m, ns, op["shots"] or 0, bool(op.get("script"))))
